@@ -100,6 +100,72 @@ struct I2I {
 };
 
 ////////////////////////////////////////////////////////////////////////////////
+// scaled_integer of one radix -> scaled_integer of another radix (10 <-> 2, 3 <-> 10, ...): exact when representable, else truncated
+// toward zero at the destination resolution. Precondition (as for same-radix conversions): the scaled-up intermediate
+// rep x SrcRadix^max(SE,0) x DstRadix^max(-DE,0) fits the promoted source and destination representations.
+template<class Src, class Dst, int Route>
+struct I2IX {
+    using SI = scaled_info<Src>;
+    using DI = scaled_info<Dst>;
+    using SRep = typename SI::rep;
+    using DRep = typename DI::rep;
+    static constexpr int SE = SI::exponent, DE = DI::exponent, SR = SI::radix, DR = DI::radix;
+    static void check(mpz_class const& zs, Outcome& o, std::string* d)
+    {
+        if (d) *d = "src_rep=" + zstr(zs);
+        o.fp = fpn(zs);
+        mpq_class v = mkq(zs) * qpow(SR, SE);
+        mpq_class t = v / qpow(DR, DE);
+        mpz_class expect = q_trunc(t);
+        if (!in_range<DRep>(expect)) return o.discard("outside-destination-range");
+        mpz_class up = zs * zpow(SR, SE > 0 ? SE : 0) * zpow(DR, DE < 0 ? -DE : 0);
+        using PS = decltype(+std::declval<SRep>());
+        using PD = decltype(+std::declval<DRep>());
+        if (!fits<PS>(up) || !fits<PD>(up)) return o.discard("scaled-up-intermediate-does-not-fit");
+        bool const exact = q_is_int(t);
+        // cause region (the listed C04 finding): the scaling is carried out in the source representation type itself
+        std::string const cause = fits<SRep>(up) ? "cross-radix/" : "shifted-source-exceeds-source-type/";
+        if (!fits<SRep>(up)) o.region = cause;
+        Src s = make_rep<Src>(zs);
+        mpz_class got;
+        bool ok = guard(o, [&] {
+            if constexpr (Route == 0) {
+                got = rep_mpz(static_cast<Dst>(s));
+            } else {
+                Dst dd{};
+                dd = s;
+                got = rep_mpz(dd);
+            }
+        });
+        if (!ok) {
+            o.fclass = cause + o.fclass;
+            return;
+        }
+        if (got != expect) return o.fail(cause + (exact ? "value-not-preserved" : "not-truncated-toward-zero"), "expected rep " + zstr(expect) + " got " + zstr(got));
+        o.pass(true, exact ? "exact" : (zs < 0 ? "truncated-negative" : "truncated-positive"));
+    }
+    static void run(Words& w, Outcome& o, std::string* d)
+    {
+        mpz_class zs = draw_rep<SRep>(w);
+        // shrink so that the scaled-up intermediate fits in most cases
+        if (w.next() % 8) {
+            mpz_class f = zpow(SR, SE > 0 ? SE : 0) * zpow(DR, DE < 0 ? -DE : 0);
+            using PS = decltype(+std::declval<SRep>());
+            mpz_class lim = zmax<PS>() / f;
+            if (lim > 0 && abs(zs) > lim) zs %= lim + 1;
+        }
+        check(zs, o, d);
+    }
+    static constexpr std::uint64_t enum_size() { return bits_v<SRep> <= 16 ? (std::uint64_t{1} << bits_v<SRep>) : 0; }
+    static void run_enum(std::uint64_t idx, Outcome& o, std::string* d)
+    {
+        using U = make_unsigned_t<SRep>;
+        check(to_mpz(static_cast<SRep>(static_cast<U>(idx))), o, d);
+    }
+    static void reg(char const* name) { add_site({std::string("C04|i2ix|") + name + (Route ? "|assign" : "|cast"), run, enum_size(), run_enum}); }
+};
+
+////////////////////////////////////////////////////////////////////////////////
 // floating point -> integer-like (radix 2 only)
 template<class F, class Dst>
 struct F2I {
